@@ -120,6 +120,8 @@ class C07World(simnet.World):
         anon_settings = AnonOverlay.settings_class()
         anon_settings.anonymize = True
         self.anon = n.add_overlay(AnonOverlay, anon_settings, endpoint=self.tep)
+        # instances of the anonymized overlay class on N (same community id, hence same prefix); None = not loaded
+        self.inst: dict[int, AnonOverlay | None] = {1: self.anon, 2: None}
         self.plain = n.add_overlay(PlainOverlay, endpoint=self.tep)
         for i, (name, flags) in enumerate(ROLES.items()):
             node = self.add_node(name, idx[1 + i])
@@ -203,10 +205,12 @@ class C07World(simnet.World):
         self.sent_now = {"anon": [], "plain": []}
         self.max_queue = len(self.tep.send_queue)
 
-    def send_anon(self, count: int = 1) -> None:
+    def send_anon(self, count: int = 1, inst: int = 1) -> None:
+        overlay = self.inst[inst]
+        assert overlay is not None, "a send by an overlay after its own unload is C11's subject, not judged here"
         for _ in range(count):
             self.marker += 1
-            p = self.n.run(self.anon.send_marker, DEST_ANON, self.marker)
+            p = self.n.run(overlay.send_marker, DEST_ANON, self.marker)
             self.sent_now["anon"].append(p)
             self.ref.packets["anon"].add(p)
             self.ref.fates["anon_produced"] += 1
@@ -218,6 +222,21 @@ class C07World(simnet.World):
         self.sent_now["plain"].append(p)
         self.ref.packets["plain"].add(p)
         self.max_queue = max(self.max_queue, len(self.tep.send_queue))
+
+    def load_second(self) -> None:
+        """A second instance of the anonymized overlay class on the same TunnelEndpoint (the reload pattern)."""
+        settings = AnonOverlay.settings_class()
+        settings.anonymize = True
+        self.inst[2] = self.n.add_overlay(AnonOverlay, settings, endpoint=self.tep)
+        self.ref.asked["anon"] = True          # the new instance asked for anonymity (Community.__init__ registers it)
+
+    def unload(self, inst: int) -> None:
+        overlay = self.inst[inst]
+        t0 = self.loop.time()
+        self.n.run(self.drive, overlay.unload())
+        assert self.loop.time() == t0, "unload needed virtual time"
+        self.inst[inst] = None
+        # the remaining instance (if any) still asks for anonymity: ref.asked is deliberately left alone
 
     def set_other(self, which: str, enable: bool) -> None:
         """set_anonymity for a prefix other than the anonymized overlay's own (what loading/configuring another overlay does)."""
@@ -382,7 +401,15 @@ class Model(core.BfsModel):
                 continue
             if k == "attach" and attached and w.tep.hops == ev[1]:
                 continue
+            if k in ("sa", "burst") and w.inst[1] is None:
+                continue
             if k == "burst" and not self.burst_ok(w):
+                continue
+            if k == "sa2" and w.inst[2] is None:
+                continue
+            if k == "load2" and w.inst[2] is not None:
+                continue
+            if k == "unload" and w.inst[ev[1]] is None:
                 continue
             out.append(i)
         return out
@@ -420,6 +447,12 @@ class Model(core.BfsModel):
             w.tep.set_anonymity(w.a_prefix, w.ref.asked["anon"])
         elif k == "setp":
             w.set_other(ev[1], bool(ev[2]))
+        elif k == "sa2":
+            w.send_anon(inst=2)
+        elif k == "load2":
+            w.load_second()
+        elif k == "unload":
+            w.unload(ev[1])
         else:
             raise ValueError(ev)
         w.flush()
@@ -474,7 +507,8 @@ class Model(core.BfsModel):
         queue = [(labels.get(p[:22], "other"), tuple(a)) for a, p in tep.send_queue]
         return (settings, tep.tunnel_community is tc, tep.tunnel_community is None, tep.hops,
                 (len(queue), tuple(sorted(set(queue)))), tuple(circuits), tuple(tables), timers, len(w.inflight),
-                tuple(sorted(w.ref.asked.items())), tuple(sorted(w.ref.ever_asked.items())), scalars)
+                tuple(sorted(w.ref.asked.items())), tuple(sorted(w.ref.ever_asked.items())), scalars,
+                tuple(o is not None for o in w.inst.values()))
 
     # -- oracle -----------------------------------------------------------------------------------------
     def judge(self, w: C07World, what: str) -> list:
@@ -580,9 +614,12 @@ class Model(core.BfsModel):
             if which != "plain" or not w.ref.asked["plain"]:
                 w.tep.set_anonymity(w.prefix_of[which], False)
         w.send_plain()
-        w.send_anon()
+        for i, overlay in w.inst.items():
+            if overlay is not None:
+                w.send_anon(inst=i)
         w.flush()
-        v.extend(self.judge(w, f"probe (other prefixes declared not anonymous, plain send, anonymized send) after {ev!r}"))
+        v.extend(self.judge(w, f"probe (other prefixes declared not anonymous, plain send, one send by every loaded "
+                               f"anonymized instance) after {ev!r}"))
         return v
 
 
@@ -595,8 +632,13 @@ FULL = [("sa",), ("sp",), ("burst",),
         ("rm", "first"), ("rm", "last"), ("tick",),
         ("detach",), ("attach", 1), ("attach", 2), ("toggle",),
         ("setp", "tunnel", False), ("setp", "plain", False), ("setp", "plain", True), ("setp", "unknown", False)]
+LIFE = [("sa",), ("sa2",), ("load2",), ("unload", 1), ("unload", 2), ("toggle",), ("build", "X", 1), ("rm", "first"),
+        ("tick",), ("detach",)]
+EVERYTHING = FULL + [e for e in LIFE if e not in FULL]
 CORE = [("sa",), ("burst",), ("build", "X", 1), ("build", "Y", 1), ("build", "X", 2),
-        ("rm", "first"), ("tick",), ("detach",), ("attach", 2), ("toggle",), ("setp", "tunnel", False)]
+        ("rm", "first"), ("tick",), ("detach",), ("attach", 2), ("toggle",)]
+# ("setp", "tunnel", False) is not in CORE: on a correct tree it is a self-loop, and the probe after every transition
+# performs exactly that call before sending; FULL has it as an event.
 
 WITNESSES = [
     [("sa",), ("sa",)],
@@ -611,19 +653,22 @@ WITNESSES = [
     [("sp",)],
     [("setp", "tunnel", False), ("sa",), ("sa",)],
     [("setp", "plain", True), ("sp",), ("sp",), ("setp", "plain", False), ("sp",)],
+    [("load2",), ("unload", 1), ("sa2",), ("sa2",)],
+    [("load2",), ("unload", 2), ("unload", 1), ("load2",), ("sa2",)],
 ]
 
 
 def configs(ctx: core.Ctx) -> list[tuple[str, list, int, int]]:
     """(name, alphabet, depth, max circuits started by build events)."""
-    cfg = [("core", CORE, 9, 2), ("full", FULL, 6, 3)] if ctx.thorough else [("core", CORE, 7, 2), ("full", FULL, 4, 3)]
+    cfg = ([("core", CORE, 9, 2), ("full", FULL, 6, 3), ("life", LIFE, 8, 2)] if ctx.thorough else
+           [("core", CORE, 7, 2), ("full", FULL, 4, 3), ("life", LIFE, 5, 2)])
     cap = int(os.environ.get("C07_MAX_DEPTH", "0") or 0)     # screening aid (mutant runs); reported as not exhaustive
     return [(n, a, min(d, cap) if cap else d, mc) for n, a, d, mc in cfg]
 
 
 def run_history(seed: int, history: list) -> tuple[list, list, dict]:
     """Plain replay of one history with the oracle after every step: (violations, observations, fates)."""
-    m = Model(seed, FULL)
+    m = Model(seed, EVERYTHING)
     w = m.initial()
     viol, obs_log = [], []
     try:
